@@ -9,8 +9,9 @@
     parse_gen gen_injective supported_accepted unsupported_rejected no_field_dropped
     grammar_facts tables_agree operators_parenthesised parse_gen_needs_support
     int_attribute_rejected dict_unpack_rejected type_params_dropped_witness
+    parseS_genS_partial genS_injective_partial global_rejected handler_name_rejected
 -/
-import Genshi.Lemmas.PyGenOk
+import Genshi.Lemmas.PyParseS5
 namespace Genshi.Props.C13
 open Genshi.Py Genshi.Gen
 
@@ -153,5 +154,104 @@ theorem type_params_dropped_witness :
   constructor
   · rfl
   · decide
+
+/-! ### statement layer -/
+
+/-- The module bodies on which faithful regeneration of *statements* is proved: expression
+    statements, (augmented) assignments, `return`, `pass`, `break`, `continue`, `assert`, `raise`,
+    `if`/`while`/`for` with `else`, `with`, `try`/`except`/`else`/`finally`, decorated `def` and `class`,
+    nested to any depth, all embedded expressions `Supported`.  Not included (the gap of the
+    `_partial` theorem): `del`, `import`, `from … import`, annotated parameters; and — outside
+    the property, because the regenerated text is not Python and is rejected — `global` and
+    `except E as name` (see `global_rejected`, `handler_name_rejected`), PEP 695 type parameters
+    (known finding). -/
+def SupportedS (ss : List PyStmt) : Prop := WFSL ss ∧ noHandlers ss = true
+
+/-- **Faithful regeneration (statements), partial.**  For every supported module body — any
+    number of statements, any nesting depth — the generator does not raise and reading the lines it
+    writes (indentation + tokens) with the statement reader `pyParseS` gives back exactly the
+    statements it was given: no statement, clause, block boundary, decorator, parameter, base class,
+    target or embedded expression is lost, moved to another block or changed.
+    Gap: `del` / `import` statements and parameter annotations are not covered by the proof (they
+    are covered by the correspondence and the oracle only). -/
+theorem parseS_genS_partial (ss : List PyStmt) (h : SupportedS ss) :
+    ∃ lines, genModule ss = some lines ∧ pyParseS lines = some ss :=
+  ⟨genBody 0 ss, by simp [genModule, wfsl_genOk ss h.1], parseS_genBody ss h.1 h.2⟩
+
+/-- two different supported module bodies are never regenerated as the same lines -/
+theorem genS_injective_partial (a b : List PyStmt) (ha : SupportedS a) (hb : SupportedS b)
+    (h : genModule a = genModule b) : a = b := by
+  obtain ⟨la, ga, pa⟩ := parseS_genS_partial a ha
+  obtain ⟨lb, gb, pb⟩ := parseS_genS_partial b hb
+  rw [ga, gb] at h
+  cases h
+  rw [pa] at pb
+  exact Option.some.inj pb
+
+/-- Outside the hypothesis: `global x` is regenerated as `global 'x'`, which is rejected. -/
+theorem global_rejected : pyParseS (genBody 0 [.global_ [['x']]]) = none := rfl
+
+/-- Outside the hypothesis: `except E as e:` is regenerated as `except E, 'e':`, which is rejected. -/
+theorem handler_name_rejected :
+    pyParseS (genBody 0 [.try_ [.pass_] [.handler (some (.name ['E'])) (some ['e']) [.pass_]] [] []]) = none := rfl
+
+/-- ```
+    @d
+    def f(p, /, q=2, *r, s, **t) -> u:
+        for i in q:
+            if i: continue
+            else: break
+        try: pass
+        except E: raise
+        except: raise E from c
+        else: return (-2) ** 2
+        finally: assert p, q
+    class C(B, m=t):
+        with a as b, c:
+            x = y = 2
+            x += 2
+            while x: x
+    ``` -/
+def exModule : List PyStmt :=
+  [ .functionDef ['f'] [.param ['p'] none none] [.param ['q'] none (some two)] (some (.param ['r'] none none))
+      [.param ['s'] none none] (some (.param ['t'] none none))
+      [ .for_ (.name ['i']) (.name ['q']) [.if_ (.name ['i']) [.continue_] [.break_]] [],
+        .try_ [.pass_]
+          [.handler (some (.name ['E'])) none [.raise_ none none],
+           .handler none none [.raise_ (some (.name ['E'])) (some (.name ['c']))]]
+          [.return_ (some exUnaryPow)] [.assert_ (.name ['p']) (some (.name ['q']))] ]
+      [.name ['d']] (some (.name ['u'])) false,
+    .classDef ['C'] [.name ['B']] [.keyword (some ['m']) (.name ['t'])]
+      [ .with_ [(.name ['a'], some (.name ['b'])), (.name ['c'], none)]
+          [ .assign [.name ['x'], .name ['y']] two,
+            .augAssign (.name ['x']) cs!"Add" two,
+            .while_ (.name ['x']) [.expr (.name ['x'])] [] ] ]
+      [] false ]
+
+theorem sup_name (s : Str) : Supported (.name s) ↔ isKeyword s = false :=
+  ⟨fun h => h.1, fun h => ⟨h, rfl⟩⟩
+
+theorem exModule_supported : SupportedS exModule := by
+  have h2 : Supported two := ⟨two_ok, rfl⟩
+  have hup : Supported exUnaryPow := by
+    refine ⟨?_, rfl⟩
+    simp only [exUnaryPow, two, WF]
+    exact ⟨by decide, ⟨by decide, two_ok, rfl⟩, two_ok, rfl, rfl⟩
+  refine ⟨?_, rfl⟩
+  simp only [exModule, WFSL, WFS, ParamsOK, WFL, WFO, WF, SupportedO, and_true, true_and]
+  refine ⟨⟨by decide, ?_, ?_, rfl, ?_, ?_⟩, ⟨by decide, ?_, rfl, ?_, rfl, ?_, rfl, ?_⟩⟩
+  all_goals first
+    | decide
+    | simp (config := { decide := true }) [sup_name, h2, hup, noHandlers, isHandler, IdentOK, exprO, isExpr,
+        isPlainParam, isVarParam, h2.1]
+
+example : ∃ lines, genModule exModule = some lines ∧ pyParseS lines = some exModule :=
+  parseS_genS_partial exModule exModule_supported
+
+example : pyParseS (genBody 0 exModule) = some exModule := rfl
+example : (genBody 0 exModule).length = 23 := rfl
+/-- not covered by the proof but read back all the same (correspondence / oracle territory) -/
+example : pyParseS (genBody 0 [.delete [.name ['a'], .name ['b']], .import_ [(cs!"os.path", some ['p'])]])
+    = some [.delete [.name ['a'], .name ['b']], .import_ [(cs!"os.path", some ['p'])]] := rfl
 
 end Genshi.Props.C13
